@@ -38,6 +38,7 @@ fn run_case(family: &str, args: &[u128]) -> Vec<u128> {
         "history" => history::history(args),
         "serde" => serde_fam::serde_case(args),
         "sched" => sched::sched(args),
+        "shortw" => sched::shortw(args),
         "fault" => fault::fault(args),
         "bao" => proto::bao_case(args),
         "copy" => proto::copy_case(args),
